@@ -1,0 +1,30 @@
+//go:build verif
+// +build verif
+
+package core
+
+// Contracts for package core (consumed by /verif/govc; comment-only file).
+
+//@ func Add
+//@   props C01
+//@   ensures (result.1 != nil) ==> result.0 == nil
+//@   modifies nothing
+//@   trusted arithmetic contracts pending
+
+//@ func Sub
+//@   props C01
+//@   ensures (result.1 != nil) ==> result.0 == nil
+//@   modifies nothing
+//@   trusted arithmetic contracts pending
+
+//@ func Mul
+//@   props C01
+//@   ensures (result.1 != nil) ==> result.0 == nil
+//@   modifies nothing
+//@   trusted arithmetic contracts pending
+
+//@ func Div
+//@   props C01
+//@   ensures (result.1 != nil) ==> result.0 == nil
+//@   modifies nothing
+//@   trusted arithmetic contracts pending
